@@ -39,6 +39,7 @@ DOM = {
 	"nanfloat": [float("nan"), 0.0, -0.0, 1.5, float("inf"), -2.5],
 	"object": [1, "a", 2.5, (1, 2), b"x", V.Plain(3)],
 	"regroup": [(1, (2, 3)), ((1, 2), 3), (1, 2, 3), ((1,), 2, 3), (1, 2, (3,)), ((1, 2, 3),)],      # the same leaves in the same order, grouped differently
+	"sets": [{1, 2}, {2, 1}, {3}, frozenset({1, 5}), {"a", 1}, {(1, 2), (2, 1)}],      # freshness only (sets are unhashable: no sensitivity demand)
 	"nested": [[1, 2], [1], (3, [4]), {"k": 1}, [1, 2], (3.0, float("nan")), [float("nan")], (1, (2.5, float("nan")))],
 }
 
